@@ -26,7 +26,7 @@ ASSUMPTIONS = ["Rust semantics of Vec/usize/isize as modelled (checked indexing,
                "resize, indices with row >= n and division by zero are outside the claim (tied to the model, not judged by the oracle)",
                "float backward error of solve is demanded (1e-11 normwise) only when cond_inf(D) <= 1e8; the theorems are about the model"]
 UNPROVED = ["band_det = \\det of the dense twin is proved over every mathcomp fieldType and at Qc (band_det_is_det, band_det_spec); for an arbitrary FieldLaws arithmetic (R, C) only the abstract-determinant form (Proofs/BandedDet2.v band_det_abs) is available",
-            "normwise backward error of the f64/Complex instantiation (tie + search); the theorems are over an abstract field",
+            "backward error: proved in the standard rounding model for the same Gallina functions (band_lu_backward_error: LU = PB + dB; band_solve_single_backward_error: (B + dB) x = b with |dB| <= (3 gam_N + gam_N^2)|L||U|; without row exchanges the constants depend on the bandwidth only, gam(3(m1+m2+1))); NOT proved: the growth factor |L||U| / |B| (with pivoting a row can be updated n-1 times whatever m1 is), band_det accuracy, and anything at binary64 (tie + search)",
             "operand non-mutation / owned = borrowed forms are run-time observations of the executor"]
 
 MANIFEST = dict(
@@ -38,7 +38,7 @@ MANIFEST = dict(
           "pivot rule answers on every nonsingular band (trivial kernel); the pre-repair signed rule is refuted by the committed witness. The model is run "
           "against the implementation on every (n,m1,m2) up to n=6 (10 thorough) x sign patterns x loud padding (Rat vs Qc exact, f64/Complex vs primitive "
           "floats, bit-compared), and a dense-twin reference in Fraction judges entries, arithmetic, product, determinant and the residual of solve."),
-    note=("The determinant is tied and searched, not proved equal to a determinant of the dense twin; float accuracy is searched (backward error 1e-11 on "
+    note=("band_det is proved equal to the determinant of the dense twin over every mathcomp fieldType and at Qc; the backward error of the LU factors and of solve is proved in the standard rounding model (growth factor not bounded), float accuracy itself is searched (backward error 1e-11 on "
           "systems with cond <= 1e8). Hypothesis m1 <= n in the LU theorems (the property has m1 < n; wider bands are tied to the model only)."),
     technique="Coq proof over an abstract ring/field + model/implementation differential execution (vm_compute vs Rust executor) + dense-twin oracle",
     design="7 (C04)")
